@@ -296,6 +296,99 @@ def rule_get_stub(ctx: Ctx, repo: Repo) -> None:
                                   "the reported number is the number of skipped rows", construct=f"{lab}: message {msg.v!r}")
 
 
+def rule_diff_reports(ctx: Ctx, repo: Repo) -> None:
+    """R-C10.1 for `stub --diff`: the path that builds two stubs (get_diff with everything it calls in cli.py interpreted) on
+    stores with stale rows - never fatal, both stubs are built from exactly the decodable rows, and the number of skipped rows
+    (each row with -v) reaches the error stream at least once (this path may decode twice and say it twice), nothing else is printed"""
+    hier = exception_hierarchy(repo)
+    gd = repo.fn(CLI, "get_diff")
+    ctx.functions.add(gd.fq)
+    ps = gd.positional_params()
+    import itertools
+    import re as _re
+    n = 0
+    for k in (1, 2, 3):
+        for pattern in itertools.product(("good", "NameLookupError", "InvalidTypeError"), repeat=k):
+            if "good" not in pattern or all(x == "good" for x in pattern):
+                continue  # nothing skipped / nothing decodable: decided on get_stub and on the handlers
+            for verbose in (False, True):
+                thunks = K(tuple(R("thunk", id=K(i), outcome=K(o)) for i, o in enumerate(pattern)))
+                st_args = State()
+                args = st_args.alloc("obj", {"__class__": K("argparse.Namespace"), "module_path": K((K("pkg.mod"), K(None))), "limit": K(2000), "verbose": K(verbose),
+                                             "disable_type_rewriting": K(False), "existing_annotation_strategy": S("strategy"), "sample_count": K(False), "config": S("config"), "diff": K(True)})
+                ri = RepoInterp(repo, gd, may_fork=(), heap=True)
+                ri.interp.exc_parents = hier
+                prints: List[Tuple[str, V]] = []
+                built: List[Any] = []
+
+                def hook(call, fname, fval, a, kw, st, _p=prints, _b=built, _t=thunks):
+                    m = call.func.attr if isinstance(call.func, ast.Attribute) else None
+                    if m == "filter":
+                        return _t
+                    if m == "to_trace" and isinstance(fval, R) and fval.kind == "thunk":
+                        o_ = fval.fields["outcome"].v
+                        if o_ == "good":
+                            return R("decoded", id=fval.fields["id"])
+                        from mtsa.absint import raise_exc
+                        raise_exc(st, o_, message=K(f"Module 'pkg.mod' has no attribute 'gone' ({o_})"))
+                        return U("stale")
+                    if fname == "print":
+                        _p.append(("print", kw.get("file", K("stdout")), st.freeze(a[0]) if a else K("")))
+                        return K(None)
+                    if fname == "build_module_stubs_from_traces":
+                        _b.append(st.freeze(a[0]))
+                        return R("stubs", n=K(len(_b)))
+                    if m == "get" and isinstance(fval, R) and fval.kind == "stubs":
+                        return R("stub", n=fval.fields["n"])
+                    if m == "render" and isinstance(fval, R) and fval.kind == "stub":
+                        return K(f"def f(x: T{fval.fields['n'].v}) -> None: ...")
+                    if (fname or "").startswith("difflib."):
+                        return K((K("- a\n"), K("+ b\n")))
+                    if m in ("trace_store", "type_rewriter", "max_typed_dict_size"):
+                        return S("cfg." + m)
+                    if fname == "NoOpRewriter":
+                        return S("noop")
+                    return None
+
+                ri.call_hook = hook
+                base_on_attr = ri.on_attr
+
+                def on_attr_gd(obj, attr, node, st, _b=base_on_attr):
+                    if isinstance(obj, S):
+                        return S(f"{obj.name}.{attr}")
+                    if isinstance(obj, R) and obj.kind == "thunk" and attr != "to_trace":
+                        st.pending = st.pending or "AttributeError"
+                        return U(f"a CallTraceThunk has no attribute {attr}")
+                    return _b(obj, attr, node, st)
+
+                ri.on_attr = ri.interp.on_attr = on_attr_gd  # type: ignore[method-assign]
+                outs = ri.run({ps[0]: args, ps[1]: K("stdout"), ps[2]: K("stderr")}, carry=st_args)
+                if len(outs) != 1:
+                    raise AnalysisError("get_diff forked")
+                o = outs[0]
+                n += 1
+                lab = f"--diff, rows {list(pattern)} verbose={verbose}"
+                good = [i for i, x in enumerate(pattern) if x == "good"]
+                bad = [i for i, x in enumerate(pattern) if x != "good"]
+                if o.term is not None and o.term[0] == "raise":
+                    ctx.violate("R-C10.1", gd.fq, f"{lab}: raises {o.term[1]}", "a stale row is fatal for stub --diff")
+                    continue
+                want = R("list", items=tuple(R("decoded", id=K(i)) for i in good))
+                ctx.check(len(built) == 2 and all(b == want for b in built), "R-C10.1", gd.fq, "both stubs of the diff are built from exactly the decodable rows, in store order",
+                          construct=f"{lab}: built from {built}")
+                err = [p_ for p_ in prints if p_[1] == K("stderr")]
+                ctx.check(len(prints) == len(err), "R-C10.1", gd.fq, "nothing but the diff goes to standard output", construct=f"{lab}: {[p_[1] for p_ in prints]}")
+                if verbose:
+                    ctx.check(len(err) >= len(bad) and len(err) % len(bad) == 0, "R-C10.1", gd.fq, "with -v every skipped row is reported on the error stream",
+                              construct=f"{lab}: {len(err)} message(s) for {len(bad)} skipped row(s)")
+                else:
+                    msgs = [e[2].v for e in err if isinstance(e[2], K) and isinstance(e[2].v, str)]
+                    ctx.check(bool(err) and len(msgs) == len(err) and all(str(len(bad)) in _re.findall(r"\d+", m_) for m_ in msgs), "R-C10.1", gd.fq,
+                              "without -v the number of skipped rows is reported on the error stream",
+                              construct=f"{lab}: {len(err)} message(s) for {len(bad)} skipped row(s): {msgs[:2]}")
+    ctx.floor("R-C10.1", "stub --diff scenarios with stale rows", n, 30)
+
+
 def rule_status(ctx: Ctx, repo: Repo) -> None:
     """The handlers and main are interpreted: nothing to show -> the no-traces message on the error stream, nothing on
     stdout, normal return; main turns a normal return of the handler into status 0."""
@@ -531,6 +624,7 @@ def run(ctx: Ctx, repo: Repo, tier: str) -> None:
               "inspect.unwrap follows __wrapped__ and otherwise returns its argument")
     ctx.attempt(rule_conversion, ctx, repo)
     ctx.attempt(rule_get_stub, ctx, repo)
+    ctx.attempt(rule_diff_reports, ctx, repo)
     ctx.attempt(rule_status, ctx, repo)
     ctx.attempt(rule_params_ignored, ctx, repo)
     # "the output equals what the decodable traces alone would produce": a stale class name is not decoded to some other class
